@@ -33,6 +33,13 @@ Theorem C10_breaker_spec : forall va dv av s e i s' r,
 Proof. exact breaker_spec. Qed.
 Print Assumptions C10_breaker_spec.
 
+(* ... and conversely the admin and ANY configured monitor can halt, in every state *)
+Theorem C10_any_monitor_can_halt : forall va dv av s e i,
+  (admin s = Some (sender i) \/ In (sender i) (monitors (cfg s))) ->
+  execute va dv av s e i CircuitBreaker = Ok (set_cfg s (set_stopped (cfg s) true), []).
+Proof. exact breaker_complete. Qed.
+Print Assumptions C10_any_monitor_can_halt.
+
 (* resuming: admin only; exactly the three totals are replaced and the flag cleared; every other
    field (fees, owner hand-over, config, batches, requests, packets) is the old one;
    the only message is the oracle post of the new rates *)
